@@ -627,6 +627,56 @@ fn check_changes(ctx: &mut Ctx, op: Call, len: usize) {
     }
 }
 
+/// ANY op list -- tiling or not, in any order, overlapping -- through the one public door to `AllChangesIter` with
+/// hand-made ops: `UnifiedDiffHunk::new(ops, &diff, hint).iter_changes()`. Whole-list iteration must be the concatenation
+/// of the per-op expansions (C13), whatever the ops are; compared with the model (`allchanges` request).
+fn check_allchanges(ctx: &mut Ctx, ops: &[Call], len: usize) {
+    let req = format!("allchanges | {}", proto::show_calls(ops));
+    let old: String = (0..len).map(|i| format!("o{}\n", i)).collect();
+    let new: String = (0..len).map(|i| format!("n{}\n", i)).collect();
+    let dops: Vec<DiffOp> = ops.iter().filter_map(|c| c.to_op()).collect();
+    let conv = |c: similar::Change<&str>| format!("{}.{}.{}.{}", tag_char(c.tag()), idx_str(c.old_index()), idx_str(c.new_index()), c.value().trim_end());
+    let r = std::panic::catch_unwind(|| {
+        let diff = similar::TextDiff::from_lines(&old[..], &new[..]);
+        let hunk = similar::udiff::UnifiedDiffHunk::new(dops.clone(), &diff, true);
+        let got: Vec<String> = hunk.iter_changes().map(conv).collect();
+        let driven = if got.len() <= 30 { drive_check(|| hunk.iter_changes(), conv, &got) } else { Ok(()) };
+        (got, driven)
+    });
+    ctx.count("changes.arbitrary_op_lists");
+    let (got, driven) = match r {
+        Ok(x) => x,
+        Err(_) => {
+            ctx.emit(&req, "panic");
+            ctx.violation("C13", &req, "iterating the changes of a hand-made op list panicked (all ranges in bounds)".to_string());
+            return;
+        }
+    };
+    ctx.emit(&req, &format!("ok C={}", got.join(",")));
+    let mut want: Vec<String> = vec![];
+    for op in ops {
+        match *op {
+            Call::Equal(o, n, l) => (0..l).for_each(|t| want.push(format!("=.{}.{}.o{}", o + t, n + t, o + t))),
+            Call::Delete(o, l, _) => (0..l).for_each(|t| want.push(format!("-.{}._.o{}", o + t, o + t))),
+            Call::Insert(_, n, l) => (0..l).for_each(|t| want.push(format!("+._.{}.n{}", n + t, n + t))),
+            Call::Replace(o, ol, n, nl) => {
+                (0..ol).for_each(|t| want.push(format!("-.{}._.o{}", o + t, o + t)));
+                (0..nl).for_each(|t| want.push(format!("+._.{}.n{}", n + t, n + t)));
+            }
+            Call::Finish => {}
+        }
+    }
+    if got != want {
+        ctx.violation("C13", &req, format!("whole-list iteration gives [{}], the per-op expansions concatenate to [{}]", got.join(","), want.join(",")));
+    }
+    if let Err(e) = driven {
+        ctx.violation("C13", &req, format!("hunk.iter_changes(): {}", e));
+    }
+    if ops.len() >= 2 && want.len() >= 2 {
+        ctx.nontrivial(&req);
+    }
+}
+
 pub fn suite_changes(ctx: &mut Ctx) {
     let len = match ctx.tier {
         Tier::Quick => 5,
@@ -650,6 +700,42 @@ pub fn suite_changes(ctx: &mut Ctx) {
                     }
                     check_changes(ctx, Call::Replace(o, a, n, b), len);
                 }
+            }
+        }
+    }
+    // arbitrary op lists of 1..3 ops (not necessarily a script: any start positions, overlapping, out of order)
+    let l2 = 3usize;
+    let mut all_ops: Vec<Call> = vec![];
+    for o in 0..=l2 {
+        for n in 0..=l2 {
+            for a in 0..=(l2 - o).min(2) {
+                for b in 0..=(l2 - n).min(2) {
+                    if a == b {
+                        all_ops.push(Call::Equal(o, n, a));
+                    }
+                    if b == 0 {
+                        all_ops.push(Call::Delete(o, a, n));
+                    }
+                    if a == 0 {
+                        all_ops.push(Call::Insert(o, n, b));
+                    }
+                    if a > 0 && b > 0 {
+                        all_ops.push(Call::Replace(o, a, n, b));
+                    }
+                }
+            }
+        }
+    }
+    for (i, x) in all_ops.iter().enumerate() {
+        for (j, y) in all_ops.iter().enumerate() {
+            if !ctx.take() {
+                continue;
+            }
+            check_allchanges(ctx, &[*x, *y], l2 + 1);
+            if (i + j) % 7 == 0 {
+                let z = all_ops[(i * 31 + j * 17) % all_ops.len()];
+                check_allchanges(ctx, &[*x, *y, z], l2 + 1);
+                check_allchanges(ctx, &[z, *x, z, *y], l2 + 1);
             }
         }
     }
